@@ -44,6 +44,8 @@ type Scenario struct {
 	UnboundedThoroughOnly bool
 	// QuickMaxBound caps the bound in the quick tier only
 	QuickMaxBound int
+	// NoHB excludes the scenario from the race-detector pass (too many threads for the slower build)
+	NoHB bool
 	// ReleasePoints: Unlock/RUnlock are scheduling points too (see vrt.Config)
 	ReleasePoints bool
 	// Tags select scenarios per tier ("quick" scenarios run in both tiers)
